@@ -160,6 +160,10 @@ FIXED = [
 # --------------------------------------------------------------------------
 def monitor(case, line):
     """returns None, or (key, reason); key is None unless the reason is a catalogued defect"""
+    if line.endswith("HANG"):
+        return (None, "the call never returned (busy loop): " + line[-200:])
+    if line.startswith("DIED"):
+        return (None, "the process died: " + line)
     trace = line.split(";")[0].split()
     total, ret, acc, cbs, order = {}, {}, {}, {}, []
     is_try = set()
@@ -177,6 +181,8 @@ def monitor(case, line):
 
     for pos, ev in enumerate(trace):
         k, a = ev[0], ev[1:]
+        if k == "!":
+            return (None, "writev called with more than IOV_MAX entries (%s)" % a)
         if k == "w":
             i, t = a.split(","); i = int(i)
             total[i] = int(t); acc[i] = 0
@@ -201,6 +207,8 @@ def monitor(case, line):
                 return (None, "uv_try_write returned %d but the OS accepted %d of its bytes" % (c, acc[i]))
             if c < 0 and acc[i] != 0:
                 return (None, "uv_try_write failed with %d after writing %d bytes" % (c, acc[i]))
+            if c in (-4, -105):
+                return (None, "uv_try_write returned %d instead of UV_EAGAIN for an interrupted/delayed write" % c)
             in_try = None
         elif k == "c":
             i, off, ln = [int(x) for x in a.split(",")]
@@ -227,6 +235,8 @@ def monitor(case, line):
                 return (None, "write callback for request %d whose uv_write failed" % i)
             if order and i < order[-1]:
                 return (None, "write callbacks out of submission order: %d after %d" % (i, order[-1]))
+            if stt in (-4, -11, -105):
+                return (None, "request %d failed with %d: an interrupted/delayed write was reported as an error" % (i, stt))
             if stt == 0 and acc[i] != total[i]:
                 return (None, "request %d completed with status 0 but only %d of %d bytes were accepted" % (i, acc[i], total[i]))
             cbs[i] = stt; order.append(i)
@@ -287,8 +297,37 @@ def model_input(case, impl_line):
     return "%s %s ;%s;%s; %s ; %s" % (blk, parts[3].strip(), c[1], c[2], parts[1].strip(), parts[2].strip())
 
 
+def run_harness(cmd, cases, shards=12):
+    """like vf.run_lines, but a case on which the harness hangs (it prints HANG and exits)
+    or dies costs only that case: the rest of its shard is run in a fresh process"""
+    import concurrent.futures
+    n = max(1, (len(cases) + shards - 1) // shards)
+    parts = [cases[i:i + n] for i in range(0, len(cases), n)]
+
+    def one(part):
+        out, hangs = [], 0
+        while len(out) < len(part):
+            if hangs >= 2:             # enough evidence from this shard; do not wait for more
+                out += ["SKIP"] * (len(part) - len(out))
+                break
+            o, rc, err = vf.run_lines(cmd, part[len(out):], timeout=900)
+            o = [l for l in o]
+            if len(o) >= len(part) - len(out):
+                out += o[:len(part) - len(out)]
+                break
+            hangs += 1
+            if o and o[-1].endswith("HANG"):
+                out += o
+            else:                      # died without a word on the next case
+                out += o + ["DIED rc=%s" % rc]
+        return out
+    with concurrent.futures.ThreadPoolExecutor(shards) as ex:
+        res = list(ex.map(one, parts))
+    return [l for r in res for l in r], 0, ""
+
+
 def run_mode(chk, name, harness_cmd, model, cases):
-    a, rc, err = vf.run_lines(harness_cmd, cases, shards=12)
+    a, rc, err = run_harness(harness_cmd, cases)
     if len(a) != len(cases):
         chk.violation("%s: harness produced %d lines for %d cases (rc=%s) %s"
                       % (name, len(a), len(cases), rc, (err or "")[-300:]),
@@ -302,6 +341,8 @@ def run_mode(chk, name, harness_cmd, model, cases):
         return
     nbad = 0
     for c, al, bl in zip(cases, a, b):
+        if al == "SKIP":
+            continue
         impl_trace = al.split(";")[0]
         chk.count(name, c + "=>" + impl_trace)
         verdict = monitor(c, al)
